@@ -515,6 +515,41 @@ def walkPosWith (ω : String → Walk) (G : Grammar) : Node → Pos → Walk
     walkRepCore min max 0 ([], true) (walkNewWith ω n)
   | _, _ => ([], false)                      -- ill-typed position: GrammarKeyError in the code
 
+/-! ### is a spine a message-level partial derivation of the history?  (decision procedure, verified in
+`Proofs/ForecastPdB.lean`: `pdB = true ↔ PD`; the check runs it on the right spines of the partial trees the REAL
+prefix parse yields - `PositionsExact.sound` observed per run) -/
+
+/-- all ways to cut a history in two -/
+def splits (h : List Msg) : List (List Msg × List Msg) :=
+  (List.range (h.length + 1)).map (fun i => (h.take i, h.drop i))
+
+/-- does node `n` derive exactly `u`?  (derivatives + nullability: the verified matcher) -/
+def matchB (G : Grammar) (F : Nat) (n : Node) (u : List Msg) : Bool := nullG G F (derivs G F n u)
+
+/-- `p` is the right spine of a partial derivation of `h` from `n`: everything left of the spine is a complete
+    derivation, the spine itself fits the grammar, a repetition on it has room for its iterations -/
+def pdB (G : Grammar) (F : Nat) : Node → List Msg → Pos → Bool
+  | .nt name (some s) r, h, .msg => decide (h = [⟨s, r, name⟩])
+  | .nt name none _, h, .nt p =>
+    match G.rule name with
+    | some body => pdB G F body h p
+    | none => false
+  | .alt _ ns, h, .alt i p =>
+    match ns[i]? with
+    | some n => pdB G F n h p
+    | none => false
+  | .cat id ns, h, .cat i p =>
+    match ns[i]? with
+    | some n => (splits h).any (fun s => matchB G F (.cat id (ns.take i)) s.1 && pdB G F n s.2 p)
+    | none => false
+  | .rep id kind n _ max, h, .rep k p =>
+    (match max with
+     | some mx => decide (k + 1 ≤ mx)
+     | none => true) &&
+    (splits h).any (fun s => matchB G F (.rep id kind n k (some k)) s.1 && pdB G F n s.2 p)
+  | .rep _ _ _ _ _, h, .rep0 => h.isEmpty
+  | _, _, _ => false
+
 /-- `PacketForecaster.predict` for a non-empty history, given the partial trees the prefix parse yields
     (their right spines `ps`): the union of the visitor's options over them.  A fresh exploration starts
     whenever the visitor leaves the present part of the tree (`seen = []`: the entries of `current_path`
